@@ -33,7 +33,8 @@ type envT struct {
 	Strat    string            `json:"strat"`
 	MS       map[string]string `json:"ms"`
 	Paths    [][2]string       `json:"paths"`
-	Blocks   []json.RawMessage `json:"blocks"` // [cdag, [links]]
+	Blocks   []json.RawMessage `json:"blocks"` // [cdag, [links]]: the truth about the cluster-DAG
+	Fail     []string          `json:"fail"`   // CIDs whose BlockGet fails at the moment
 }
 
 type callT struct {
@@ -45,6 +46,7 @@ type callT struct {
 	To   string            `json:"to,omitempty"`
 	Path string            `json:"path,omitempty"`
 	MS   map[string]string `json:"ms,omitempty"`
+	Fail []string          `json:"fail,omitempty"`
 }
 
 type scriptT struct {
@@ -74,9 +76,28 @@ type recT struct {
 }
 
 type world struct {
-	r    *rig.Rig
-	proj *rig.Proj
-	n    int
+	r      *rig.Rig
+	proj   *rig.Proj
+	n      int
+	blocks map[string][]byte // every block of the script's DAGs, by abstract CID name
+}
+
+// setFail makes BlockGet fail for the named CIDs (fault injection: the connector has no such block) and
+// succeed for all other blocks of the script.
+func (w *world) setFail(fail []string) {
+	m := map[string][]byte{}
+	for name, raw := range w.blocks {
+		failing := false
+		for _, f := range fail {
+			if f == name {
+				failing = true
+			}
+		}
+		if !failing {
+			m[w.proj.N.Cid(name).String()] = raw
+		}
+	}
+	w.r.IPFS.Blocks = m
 }
 
 func newWorld(e envT, seed int64) (*world, error) {
@@ -127,7 +148,7 @@ func (w *world) prepare(s *scriptT) error {
 	for _, pc := range s.Env.Paths {
 		w.r.IPFS.Paths[pc[0]] = N.Cid(pc[1])
 	}
-	w.r.IPFS.Blocks = map[string][]byte{}
+	w.blocks = map[string][]byte{}
 	for _, raw := range s.Env.Blocks {
 		var pair []json.RawMessage
 		if err := json.Unmarshal(raw, &pair); err != nil || len(pair) != 2 {
@@ -146,8 +167,13 @@ func (w *world) prepare(s *scriptT) error {
 			return err
 		}
 		// the cluster-DAG block as the sharding adder builds it (a CBOR map of links)
-		w.r.IPFS.Blocks[N.Cid(d).String()] = node.RawData()
+		w.blocks[d] = node.RawData()
+		// shard blocks exist too (the code under test never fetches them; failing them must change nothing)
+		for _, l := range links {
+			w.blocks[l] = []byte("shard-" + l)
+		}
 	}
+	w.setFail(s.Env.Fail)
 	for _, e := range s.Pre {
 		if err := w.r.Shared.State.Add(ctx, w.proj.Pin(e)); err != nil {
 			return err
@@ -247,8 +273,19 @@ func TestDriver(t *testing.T) {
 			return
 		}
 		env := s.Env
+		if env.Fail == nil {
+			env.Fail = []string{}
+		}
 		for i := range s.Steps {
 			c := &s.Steps[i]
+			if c.Op == "blockfail" {
+				env.Fail = c.Fail
+				if env.Fail == nil {
+					env.Fail = []string{}
+				}
+				w.setFail(c.Fail)
+				continue
+			}
 			if c.Op == "metrics" {
 				env.MS = c.MS
 				w.setMetrics(c.MS)
